@@ -185,6 +185,7 @@ def dispatch (fn : String) (j : Json) : P Json := do
   | "recodeWire" => recodeWireFn j
   | "mapper" => mapperFn j
   | "clientProtocol" => clientProtocolFn j
+  | "fieldType" => fieldTypeFn j
   | _ => throw s!"unknown fn {fn}"
 
 def handle (line : String) : String :=
